@@ -26,6 +26,11 @@ Keys2 == <<S("str", "a"), S("str", "b")>>
 Keys3 == <<S("str", "a"), S("str", "b"), S("int", "0")>>
 Members3 == <<S("str", "a"), S("str", "b"), S("int", "1")>>
 Members2 == <<S("str", "a"), S("int", "1")>>
+\* C02: keys drawn from the characters the path syntax defines an escape for
+KeysPunct == <<S("str", "."), S("str", "/"), S("str", "["), S("str", "]"), S("str", "("), S("str", ")"), S("str", "'"), S("str", "\""),
+              S("str", " "), S("str", "^"), S("str", "$"), S("str", "%"), S("str", "a.b"), S("str", "/x"), S("str", "a b"), S("str", "x/y"), S("str", "[0]")>>
+Scalars1 == <<S("int", "1")>>
+MembersPunct == <<S("str", "a.b"), S("str", "x y"), S("str", "[z]")>>
 
 (* ---- the path vocabulary of a document ---- *)
 StrKeysOf(d) == UNION {{d[i].keys[j].v : j \in {x \in 1..Len(d[i].keys) : d[i].keys[x].t = "str"}} : i \in 1..Len(d)}
